@@ -215,6 +215,15 @@ def ga(obj, name, default=_MISSING):
         raise
 
 
+def gp(obj, name):
+    """Read a *private* attribute the harness relies on (Graph._vertices, ...): if the package no longer has it, the analysis
+    cannot look inside any more -- undecided (exit 2), never a verdict about the property."""
+    v = ga(obj, name, _MISSING)
+    if v is _MISSING:
+        raise AnalysisError("anchor vanished: %s.%s (private attribute the harness reads)" % (getattr(obj, "cls", type(obj).__name__), name))
+    return v
+
+
 def sa(obj, name, value):
     """Assign attribute `name` of an interpreted object the way the analysed program would (property setters run)."""
     it = ACTIVE
@@ -290,6 +299,10 @@ OPERATOR_BINARY = {
     "ge": ("cmp", ast.GtE), "is_": ("cmp", ast.Is), "is_not": ("cmp", ast.IsNot),
 }
 _NO_DEFAULT = object()
+
+
+class EnumAuto:
+    """enum.auto(): the member's value is its 1-based position among the members."""
 
 
 class FieldSpec:
@@ -973,9 +986,7 @@ class Interp:
                             ts = h.type.elts if isinstance(h.type, ast.Tuple) else [h.type]
                             names = [ast.unparse(t).split(".")[-1] for t in ts]
                         exc_name = e.exc.split("(")[0]
-                        if names is None or exc_name in names or "Exception" in names or "BaseException" in names or \
-                                (exc_name in ("KeyError", "IndexError") and "LookupError" in names) or \
-                                (exc_name == "NotImplementedError" and "RuntimeError" in names):
+                        if names is None or (set(names) & self.exc_ancestors(exc_name)):
                             if h.name:
                                 env[h.name] = Opaque("exc", exc_name)
                             self.block(h.body, env)
@@ -1029,6 +1040,33 @@ class Interp:
             env[st.name] = val
         else:
             raise self.unsupported("statement %s" % type(st).__name__, st)
+
+    BUILTIN_EXC_BASES = {
+        "NotImplementedError": "RuntimeError", "RecursionError": "RuntimeError", "KeyError": "LookupError", "IndexError": "LookupError",
+        "FileNotFoundError": "OSError", "PermissionError": "OSError", "IOError": "OSError", "ZeroDivisionError": "ArithmeticError",
+        "FloatingPointError": "ArithmeticError", "OverflowError": "ArithmeticError", "UnicodeDecodeError": "ValueError",
+        "ModuleNotFoundError": "ImportError", "StopIteration": "Exception", "AttributeError": "Exception", "TypeError": "Exception",
+        "ValueError": "Exception", "AssertionError": "Exception", "RuntimeError": "Exception", "LookupError": "Exception",
+        "OSError": "Exception", "ArithmeticError": "Exception", "ImportError": "Exception", "NameError": "Exception", "Exception": "BaseException",
+    }
+
+    def exc_ancestors(self, name):
+        """The names of the exception class `name` and of all its base classes (package-defined classes and builtins)."""
+        out, todo = set(), [name]
+        while todo:
+            x = todo.pop()
+            if x in out:
+                continue
+            out.add(x)
+            c = self.pkg.class_alias(x)
+            if c is not None:
+                for b in self.pkg.classes[c].bases:
+                    todo.append(b.split(".")[-1])
+            elif x in self.BUILTIN_EXC_BASES:
+                todo.append(self.BUILTIN_EXC_BASES[x])
+        if name not in self.BUILTIN_EXC_BASES and self.pkg.class_alias(name) is None and name != "BaseException":
+            out |= {"Exception", "BaseException"}
+        return out
 
     def match_pattern(self, pat, v, binds, env, node):
         """Structural pattern matching (PEP 634) of value v against pattern pat; captures go to `binds`."""
@@ -1590,6 +1628,8 @@ class Interp:
         if key not in self.globals_cache:
             ci = self.pkg.classes[cname]
             val = self.class_const(cname, name, ci.consts[name])
+            if isinstance(val, EnumAuto):
+                val = Poly.const(self.enum_member_names(cname).index(name) + 1)
             if ci.enum_kind == "int":
                 self.globals_cache[key] = val
             else:
@@ -2190,6 +2230,8 @@ class Interp:
 
     def ev_Subscript(self, n, env):
         v = self.ev(n.value, env)
+        if isinstance(v, Opaque) and v.kind == "npfunc" and v.payload[0] in ("s_", "index_exp"):
+            return self.ev_index(n.slice, env)
         if isinstance(v, Opaque) and v.kind == "npfunc" and v.payload[0] in ("c_", "r_"):
             parts = [self.ev(e, env) for e in (n.slice.elts if isinstance(n.slice, ast.Tuple) else [n.slice])]
             if any(isinstance(p_, str) for p_ in parts):
@@ -2428,7 +2470,7 @@ class Interp:
         if isinstance(v, slice) and a in ("start", "stop", "step"):
             x = getattr(v, a)
             return None if x is None else Poly.const(x)
-        if isinstance(v, (dict, list, tuple, str)) and a == "__getitem__":
+        if isinstance(v, (dict, list, tuple, str, Arr)) and a == "__getitem__":
             return Opaque("callable", (lambda k, v=v, n=n: self.ev_Subscript(ast.Subscript(value=_Lit(v), slice=_Lit(k), ctx=ast.Load(), lineno=getattr(n, "lineno", 0)), {})))
         if isinstance(v, Arr) and a == "__dict__":
             return v.__dict__.setdefault("attrs", {})
@@ -2510,6 +2552,35 @@ class Interp:
                 return Opaque("bound", v, a)
             if a == "__class__":
                 return ClassRef(v.cls)
+            if v.cls in self.pkg.classes:
+                for c_ in self.pkg.mro(v.cls):
+                    if a in self.pkg.classes[c_].inner:
+                        return ClassRef(self.pkg.classes[c_].inner[a])      # a nested class reached through an instance
+                unk = self.pkg.unknown_bases(v.cls)
+                if unk and set(b_.split(".")[-1] for b_ in unk) <= {"Mapping", "MutableMapping"} and self.dunder(v, "__getitem__") and self.dunder(v, "__iter__"):
+                    # collections.abc.Mapping mixin methods, derived from __getitem__ / __iter__ / __len__ as the ABC does
+                    def keys_(v=v):
+                        return self.iterate(self.call_function(self.dunder(v, "__iter__"), [v]), n)
+
+                    def getitem_(k_, v=v):
+                        return self.call_function(self.dunder(v, "__getitem__"), [v, k_])
+                    if a == "keys":
+                        return Opaque("callable", lambda: list(keys_()))
+                    if a == "values":
+                        return Opaque("callable", lambda: [getitem_(k_) for k_ in keys_()])
+                    if a == "items":
+                        return Opaque("callable", lambda: [(k_, getitem_(k_)) for k_ in keys_()])
+                    if a == "__contains__":
+                        return Opaque("callable", lambda k_: any(self.equal(k_, x_, n) is True for x_ in keys_()))
+                    if a == "get":
+                        def get_(k_, default=None):
+                            for x_ in keys_():
+                                if self.equal(k_, x_, n) is True:
+                                    return getitem_(k_)
+                            return default
+                        return Opaque("callable", get_)
+                if unk:
+                    raise self.unsupported("attribute %s of %s, which inherits from %s (not part of the model)" % (a, v.cls, ", ".join(unk)), n)
             raise PathRaise("AttributeError(%s.%s)" % (v.cls, a), self.where(n))
         if isinstance(v, Poly):
             if a in ("real",):
@@ -2712,6 +2783,16 @@ class Interp:
             return self.ev_Subscript(ast.Subscript(value=_Lit(args[0]), slice=_Lit(args[1]), ctx=ast.Load(), lineno=getattr(n, "lineno", 0)), {})
         if origin.startswith("operator") and leaf == "contains" and len(args) == 2:
             return self.cmp(n, args[1], ast.In(), args[0])
+        if origin.startswith("enum") and leaf == "auto":
+            return EnumAuto()
+        if origin.startswith("itertools") and leaf == "filterfalse":
+            return LazyIter([x for x in self.iterate(args[1], n) if not (self.truth(self.call_value(args[0], [x], n), n) if args[0] is not None else self.truth(x, n))])
+        if origin.startswith("itertools") and leaf in ("takewhile", "dropwhile"):
+            xs = self.iterate(args[1], n)
+            k_ = 0
+            while k_ < len(xs) and self.truth(self.call_value(args[0], [xs[k_]], n), n):
+                k_ += 1
+            return LazyIter(xs[:k_] if leaf == "takewhile" else xs[k_:])
         if origin.startswith("itertools") and leaf == "starmap":
             return LazyIter([self.call_value(args[0], list(self.iterate(xs, n)), n) for xs in self.iterate(args[1], n)])
         if origin.startswith("itertools") and leaf == "repeat":
@@ -3774,7 +3855,8 @@ class Interp:
         if name in ("eye", "identity"):
             self.check_dtype(kw, n)
             k = self.intval(args[0], n)
-            m = self.intval(args[1], n) if len(args) > 1 else k
+            m_arg = args[1] if len(args) > 1 else kw.get("M")
+            m = self.intval(m_arg, n) if m_arg is not None else k
             return Arr([[Poly.const(1 if i == j else 0) for j in range(m)] for i in range(k)], 2)
         if name in ("zeros", "ones", "empty"):
             self.check_dtype(kw, n)
